@@ -117,17 +117,17 @@ impl TraitHandler for DebugEnumHandler {
                                     ));
 
                                     block_token_stream.extend(if name_string.is_some() {
-                                        quote! (builder.field(stringify!(#key), &arg);)
+                                        quote! (builder.field(::core::stringify!(#key), &arg);)
                                     } else {
-                                        quote! (builder.entry(&Educe__RawString(stringify!(#key)), &arg);)
+                                        quote! (builder.entry(&Educe__RawString(::core::stringify!(#key)), &arg);)
                                     });
                                 } else {
                                     debug_types.push(ty);
 
                                     block_token_stream.extend(if name_string.is_some() {
-                                        quote! (builder.field(stringify!(#key), #field_name_var);)
+                                        quote! (builder.field(::core::stringify!(#key), #field_name_var);)
                                     } else {
-                                        quote! (builder.entry(&Educe__RawString(stringify!(#key)), #field_name_var);)
+                                        quote! (builder.entry(&Educe__RawString(::core::stringify!(#key)), #field_name_var);)
                                     });
                                 }
 
@@ -241,17 +241,17 @@ impl TraitHandler for DebugEnumHandler {
                                     ));
 
                                     block_token_stream.extend(if name_string.is_some() {
-                                        quote! (builder.field(stringify!(#key), &arg);)
+                                        quote! (builder.field(::core::stringify!(#key), &arg);)
                                     } else {
-                                        quote! (builder.entry(&Educe__RawString(stringify!(#key)), &arg);)
+                                        quote! (builder.entry(&Educe__RawString(::core::stringify!(#key)), &arg);)
                                     });
                                 } else {
                                     debug_types.push(ty);
 
                                     block_token_stream.extend(if name_string.is_some() {
-                                        quote! (builder.field(stringify!(#key), #field_name_var);)
+                                        quote! (builder.field(::core::stringify!(#key), #field_name_var);)
                                     } else {
-                                        quote! (builder.entry(&Educe__RawString(stringify!(#key)), #field_name_var);)
+                                        quote! (builder.entry(&Educe__RawString(::core::stringify!(#key)), #field_name_var);)
                                     });
                                 }
 
@@ -327,7 +327,7 @@ impl TraitHandler for DebugEnumHandler {
         if arms_token_stream.is_empty() {
             if let Some(ident) = name {
                 builder_token_stream.extend(quote! {
-                    f.write_str(stringify!(#ident))
+                    f.write_str(::core::stringify!(#ident))
                 });
             } else {
                 return Err(super::panic::unit_enum_need_name(ident));
